@@ -242,7 +242,8 @@ def _shortest_hyp_paths(
                         depths[ss] = depth
 
     shortest: dict[tuple[Synset, int], list[Synset]] = {}
-    for ss in common:
+    # iterate in a fixed order so results do not depend on set ordering
+    for ss in sorted(common):
         from_self_subpaths, from_other_subpaths = subpaths[ss]
         shortest_from_self = min(from_self_subpaths, key=len)
         # for the other path, we need to reverse it and remove the pivot synset
